@@ -733,7 +733,8 @@ static int run_cmd(struct ctx *c, char **t, int nt) {
               len, ename(e ? e : (ea ? ea : eb)), both ? len : 0, both ? "true" : "false", both ? "true" : "false", w == 0 ? "true" : "false");
       free(va); free(vb); econf_freeFile(kf); free(p0); free(p1); free(p2); free(n1); free(n2);
     } else {                                      /* a path of exactly len bytes built from nested directories */
-      size_t base = strlen(dir); char *pth = malloc(len + 16); strcpy(pth, dir); size_t cur = base; int w = 0;
+      size_t base = strlen(dir); if (base + 24 > len) { free(dir); return 0; }      /* (the scratch root alone is longer than that) */
+      char *pth = malloc(len + 16); strcpy(pth, dir); size_t cur = base; int w = 0;
       while (cur + 2 + 6 < len) { size_t seg = len - cur - 1 - 7; if (seg > 200) seg = 200; if (seg < 1) break; pth[cur++] = '/'; memset(pth + cur, 'd', seg); cur += seg; pth[cur] = 0; }
       w = 0; { char *q = strdup(pth); mkdirs(q); free(q); }
       /* final component pads to the exact length */
